@@ -260,6 +260,25 @@ func switchSuite() []swModel {
 		m.addRule("Y", m.alt(m.name("X"), m.char("z"), m.seq(m.char("x"), m.char("q"))), 1)
 		return 2
 	}})
+	s = append(s, swModel{Name: "Z <- W 'z' / 'u' 'o' / 'x'  with U <- 'u' V ; V <- U 'v' / 'q' W / 'e' ; W <- V 'w' / 'r' Z / 'f'  (a chain of three rules each first reached while its predecessor is in progress)", Hop: "recursive rules", Build: func(m *model) int {
+		m.addRule("U", m.seq(m.char("u"), m.name("V")), 2)
+		m.addRule("V", m.alt(m.seq(m.name("U"), m.char("v")), m.seq(m.char("q"), m.name("W")), m.char("e")), 2)
+		m.addRule("W", m.alt(m.seq(m.name("V"), m.char("w")), m.seq(m.char("r"), m.name("Z")), m.char("f")), 2)
+		m.addRule("Z", m.alt(m.seq(m.name("W"), m.char("z")), m.seq(m.char("u"), m.char("o")), m.char("x")), 2)
+		return 3
+	}})
+	s = append(s, swModel{Name: "Z5 <- R4 'z' / 'a' 'o' / 'x'  behind a chain of five such rules", Hop: "recursive rules", Build: func(m *model) int {
+		m.addRule("R0", m.seq(m.char("a"), m.name("R1")), 2)
+		for i := 1; i <= 4; i++ {
+			prev, next := fmt.Sprintf("R%d", i-1), fmt.Sprintf("R%d", i+1)
+			if i == 4 {
+				next = "Z5"
+			}
+			m.addRule(fmt.Sprintf("R%d", i), m.alt(m.seq(m.name(prev), m.char(string(rune('b'+i)))), m.seq(m.char(string(rune('k'+i))), m.name(next)), m.char(string(rune('p'+i)))), 2)
+		}
+		m.addRule("Z5", m.alt(m.seq(m.name("R4"), m.char("z")), m.seq(m.char("a"), m.char("o")), m.char("x")), 2)
+		return 5
+	}})
 	s = append(s, swModel{Name: "List <- 'a' Tail ; Tail <- ',' List / ';' / List / 'e'  (mutual recursion, overlapping through the recursion)", Hop: "recursive rules", Build: func(m *model) int {
 		m.addRule("S", m.name("List"), 1)
 		m.addRule("List", m.seq(m.char("a"), m.name("Tail")), 3)
@@ -472,6 +491,7 @@ func runSwitchSuite(r *Repo, specs []swModel, optSets []modelOpts) ([]*swResult,
 				fmt.Fprintf(os.Stderr, "MODEL %s [%s]\n before: %s\n after:  %s\n", sr.Spec.Name, optsName(sr.Opts), before, m1.dump(m1.rules[ri], 0, map[*Obj]bool{}))
 			}
 		}
+		m1.twin = m0
 		sr.TV = checkModelAgainst(r, ti, rg, m1, m0, ri, sr.Spec.Name+" ["+optsName(sr.Opts)+"]")
 	})
 	return out, nil
